@@ -38,11 +38,12 @@ def solve(A, b, Delta):
     # Check for the hard case
     if minSig < eps and norm(bv/(sig+lam)) < Delta:
         p = -v@(bv/(sig+lam))
-        z = v[0]
+        z = v[:,0] # eigenvector of the lowest eigenvalue (columns of v)
         pz = p@z
         pp = p@p
         ddmpp = Delta*Delta-pp
-        tau = ddmpp / (pz + np.sign(pz)*np.sqrt(pz*pz + ddmpp))
+        # stable root of tau^2 + 2 pz tau - ddmpp = 0; sign(0) must count as +1
+        tau = ddmpp / (pz + np.where(pz >= 0, 1.0, -1.0)*np.sqrt(pz*pz + ddmpp))
         return p + tau * z
 
     pNormSq = pnorm_squared(bvv, sig+lam)
